@@ -207,6 +207,9 @@ pub fn props_for(family: &str, profile: &str) -> Vec<&'static str> {
         // C06 profile: the counter is zeroed by the harness, so only the accounting itself is judged
         "sigrace" => vec!["C09"],
         "sharedsite" if profile == "C06" => vec!["C06"],
+        // C04: "a thread holding an injector observes exactly its own fakes, whatever other threads
+        // attempt meanwhile" -- including the verdict on its own calls, given while it still holds it
+        "sharedsite" if profile == "C04" => vec!["C04"],
         "sharedsite" => vec!["C07"],
         "arms" => vec!["C06", "C08"],
         _ => vec!["C05", "C04"],
